@@ -290,6 +290,17 @@ def run(out: Outcome, drv):
         k = 0
         for it in range(n):
             ctxs = gen_typed(rng)
+            if it % 25 == 0:
+                # a document that pins its YAML version with a directive is loaded in between (its own scalars mean the same in
+                # YAML 1.1 and 1.2): a loader shared between loads would keep resolving later documents by 1.1 rules
+                try:
+                    got = observe("%YAML 1.1\n---\nstreams:\n  v1:\n    qartod:\n      gross_range_test:\n        fail_span: [0, 1]\n")
+                    if len(got) != 1:
+                        out.violation(f"{WHAT}: a YAML document with a %YAML 1.1 directive exposes {len(got)} calls instead of 1",
+                                      {"case": {"carrier": "yaml", "directive": "%YAML 1.1"}, "observed": got})
+                except Exception as e:  # noqa: BLE001
+                    out.violation(f"{WHAT}: a YAML document with a %YAML 1.1 directive is rejected: {type(e).__name__}: {e}",
+                                  {"case": {"carrier": "yaml", "directive": "%YAML 1.1"}})
             for layout in ("contexts", "context", "streams", "modules"):
                 d = layout_dict(layout, ctxs)
                 if d is None:
